@@ -20,7 +20,10 @@
 EXTENDS Integers, Sequences, FiniteSets, TLC
 
 CONSTANTS MaxPkts,     \* packets the environment may deliver
-          T1Retries    \* T1 expiries before the handshake is failed
+          T1Retries,   \* T1 expiries before the handshake is failed
+          Closers,     \* ids (subset of {6,7}) of concurrent Association.Close callers
+          Aborters,    \* {8} or {}: an Association.Abort caller
+          Readers      \* {5} or {}: a blocked Stream.ReadSCTP caller
 
 (* --algorithm Lifecycle {
   variables
@@ -120,21 +123,28 @@ CONSTANTS MaxPkts,     \* packets the environment may deliver
   {
   c1:  await hsResult # "none" \/ readLoopCloseCh;
        connWaiting := FALSE;
+       \* a failed handshake tears the association down before the error is returned (the caller gets no
+       \* handle). Without these two steps TLC finds: T1 failure -> error returned -> late COOKIE-ACK ->
+       \* read loop blocks in completeHandshake(nil) holding the association lock for ever (was defect F19).
+       if (hsResult = "err") {
+  c2:    CloseAssoc();
+  c3:    await readLoopCloseCh;
+       };
   }
 
   \* Stream.ReadSCTP: loop under the stream lock, sync.Cond wait releases it
-  fair process (Reader = 5)
+  fair process (Reader \in Readers)
   {
-  r1:  await slock = 0; slock := 5;
+  r1:  await slock = 0; slock := self;
   r2:  while (~readable /\ ~readErr) {
   r3:    slock := 0;                                              \* Cond.Wait
-  r4:    await (readable \/ readErr) /\ slock = 0; slock := 5;
+  r4:    await (readable \/ readErr) /\ slock = 0; slock := self;
        };
   r5:  slock := 0;
   }
 
   \* Association.Close, called (possibly twice, concurrently) at any moment
-  fair process (Closer \in {6, 7})
+  fair process (Closer \in Closers)
   {
   cl0: either { skip; } or { goto cldone; };                      \* the application may or may not call Close
   cl1: CloseAssoc();
@@ -143,10 +153,10 @@ CONSTANTS MaxPkts,     \* packets the environment may deliver
   }
 
   \* Association.Abort at any moment
-  fair process (Aborter = 8)
+  fair process (Aborter \in Aborters)
   {
   ab0: either { skip; } or { goto abdone; };
-  ab1: await alock = 0; alock := 8;
+  ab1: await alock = 0; alock := self;
   ab2: willAbort := TRUE; alock := 0;
   ab3: awake := TRUE;
   ab4: await abortSent \/ TRUE;                                   \* wait <= 200 ms for the ABORT to be written
@@ -182,7 +192,7 @@ vars == << pc, alock, slock, inbox, delivered, connClosed, readDeadline,
            connWaiting, hsResult, readErr, readable, willAbort, abortSent, 
            timersClosed, t1Count, wfail, sentPkts >>
 
-ProcSet == {1} \cup {2} \cup {3} \cup {4} \cup {5} \cup ({6, 7}) \cup {8} \cup {9}
+ProcSet == {1} \cup {2} \cup {3} \cup {4} \cup (Readers) \cup (Closers) \cup (Aborters) \cup {9}
 
 Init == (* Global variables *)
         /\ alock = 0
@@ -212,9 +222,9 @@ Init == (* Global variables *)
                                         [] self = 2 -> "wl"
                                         [] self = 3 -> "t1"
                                         [] self = 4 -> "c1"
-                                        [] self = 5 -> "r1"
-                                        [] self \in {6, 7} -> "cl0"
-                                        [] self = 8 -> "ab0"
+                                        [] self \in Readers -> "r1"
+                                        [] self \in Closers -> "cl0"
+                                        [] self \in Aborters -> "ab0"
                                         [] self = 9 -> "e1"]
 
 rl == /\ pc[1] = "rl"
@@ -526,59 +536,86 @@ T1 == t1 \/ t1l \/ t1u \/ t1f \/ t1fl \/ t1fc \/ t1fu
 c1 == /\ pc[4] = "c1"
       /\ hsResult # "none" \/ readLoopCloseCh
       /\ connWaiting' = FALSE
-      /\ pc' = [pc EXCEPT ![4] = "Done"]
+      /\ IF hsResult = "err"
+            THEN /\ pc' = [pc EXCEPT ![4] = "c2"]
+            ELSE /\ pc' = [pc EXCEPT ![4] = "Done"]
       /\ UNCHANGED << alock, slock, inbox, delivered, connClosed, readDeadline, 
                       state, closeWriteLoopCh, readLoopCloseCh, acceptChClosed, 
                       awake, hsResult, readErr, readable, willAbort, abortSent, 
                       timersClosed, t1Count, wfail, sentPkts >>
 
-Connect == c1
+c2 == /\ pc[4] = "c2"
+      /\ state' = "closed"
+      /\ connClosed' = TRUE
+      /\ timersClosed' = TRUE
+      /\ closeWriteLoopCh' = TRUE
+      /\ pc' = [pc EXCEPT ![4] = "c3"]
+      /\ UNCHANGED << alock, slock, inbox, delivered, readDeadline, 
+                      readLoopCloseCh, acceptChClosed, awake, connWaiting, 
+                      hsResult, readErr, readable, willAbort, abortSent, 
+                      t1Count, wfail, sentPkts >>
 
-r1 == /\ pc[5] = "r1"
-      /\ slock = 0
-      /\ slock' = 5
-      /\ pc' = [pc EXCEPT ![5] = "r2"]
-      /\ UNCHANGED << alock, inbox, delivered, connClosed, readDeadline, state, 
-                      closeWriteLoopCh, readLoopCloseCh, acceptChClosed, awake, 
-                      connWaiting, hsResult, readErr, readable, willAbort, 
-                      abortSent, timersClosed, t1Count, wfail, sentPkts >>
-
-r2 == /\ pc[5] = "r2"
-      /\ IF ~readable /\ ~readErr
-            THEN /\ pc' = [pc EXCEPT ![5] = "r3"]
-            ELSE /\ pc' = [pc EXCEPT ![5] = "r5"]
+c3 == /\ pc[4] = "c3"
+      /\ readLoopCloseCh
+      /\ pc' = [pc EXCEPT ![4] = "Done"]
       /\ UNCHANGED << alock, slock, inbox, delivered, connClosed, readDeadline, 
                       state, closeWriteLoopCh, readLoopCloseCh, acceptChClosed, 
                       awake, connWaiting, hsResult, readErr, readable, 
                       willAbort, abortSent, timersClosed, t1Count, wfail, 
                       sentPkts >>
 
-r3 == /\ pc[5] = "r3"
-      /\ slock' = 0
-      /\ pc' = [pc EXCEPT ![5] = "r4"]
-      /\ UNCHANGED << alock, inbox, delivered, connClosed, readDeadline, state, 
-                      closeWriteLoopCh, readLoopCloseCh, acceptChClosed, awake, 
-                      connWaiting, hsResult, readErr, readable, willAbort, 
-                      abortSent, timersClosed, t1Count, wfail, sentPkts >>
+Connect == c1 \/ c2 \/ c3
 
-r4 == /\ pc[5] = "r4"
-      /\ (readable \/ readErr) /\ slock = 0
-      /\ slock' = 5
-      /\ pc' = [pc EXCEPT ![5] = "r2"]
-      /\ UNCHANGED << alock, inbox, delivered, connClosed, readDeadline, state, 
-                      closeWriteLoopCh, readLoopCloseCh, acceptChClosed, awake, 
-                      connWaiting, hsResult, readErr, readable, willAbort, 
-                      abortSent, timersClosed, t1Count, wfail, sentPkts >>
+r1(self) == /\ pc[self] = "r1"
+            /\ slock = 0
+            /\ slock' = self
+            /\ pc' = [pc EXCEPT ![self] = "r2"]
+            /\ UNCHANGED << alock, inbox, delivered, connClosed, readDeadline, 
+                            state, closeWriteLoopCh, readLoopCloseCh, 
+                            acceptChClosed, awake, connWaiting, hsResult, 
+                            readErr, readable, willAbort, abortSent, 
+                            timersClosed, t1Count, wfail, sentPkts >>
 
-r5 == /\ pc[5] = "r5"
-      /\ slock' = 0
-      /\ pc' = [pc EXCEPT ![5] = "Done"]
-      /\ UNCHANGED << alock, inbox, delivered, connClosed, readDeadline, state, 
-                      closeWriteLoopCh, readLoopCloseCh, acceptChClosed, awake, 
-                      connWaiting, hsResult, readErr, readable, willAbort, 
-                      abortSent, timersClosed, t1Count, wfail, sentPkts >>
+r2(self) == /\ pc[self] = "r2"
+            /\ IF ~readable /\ ~readErr
+                  THEN /\ pc' = [pc EXCEPT ![self] = "r3"]
+                  ELSE /\ pc' = [pc EXCEPT ![self] = "r5"]
+            /\ UNCHANGED << alock, slock, inbox, delivered, connClosed, 
+                            readDeadline, state, closeWriteLoopCh, 
+                            readLoopCloseCh, acceptChClosed, awake, 
+                            connWaiting, hsResult, readErr, readable, 
+                            willAbort, abortSent, timersClosed, t1Count, wfail, 
+                            sentPkts >>
 
-Reader == r1 \/ r2 \/ r3 \/ r4 \/ r5
+r3(self) == /\ pc[self] = "r3"
+            /\ slock' = 0
+            /\ pc' = [pc EXCEPT ![self] = "r4"]
+            /\ UNCHANGED << alock, inbox, delivered, connClosed, readDeadline, 
+                            state, closeWriteLoopCh, readLoopCloseCh, 
+                            acceptChClosed, awake, connWaiting, hsResult, 
+                            readErr, readable, willAbort, abortSent, 
+                            timersClosed, t1Count, wfail, sentPkts >>
+
+r4(self) == /\ pc[self] = "r4"
+            /\ (readable \/ readErr) /\ slock = 0
+            /\ slock' = self
+            /\ pc' = [pc EXCEPT ![self] = "r2"]
+            /\ UNCHANGED << alock, inbox, delivered, connClosed, readDeadline, 
+                            state, closeWriteLoopCh, readLoopCloseCh, 
+                            acceptChClosed, awake, connWaiting, hsResult, 
+                            readErr, readable, willAbort, abortSent, 
+                            timersClosed, t1Count, wfail, sentPkts >>
+
+r5(self) == /\ pc[self] = "r5"
+            /\ slock' = 0
+            /\ pc' = [pc EXCEPT ![self] = "Done"]
+            /\ UNCHANGED << alock, inbox, delivered, connClosed, readDeadline, 
+                            state, closeWriteLoopCh, readLoopCloseCh, 
+                            acceptChClosed, awake, connWaiting, hsResult, 
+                            readErr, readable, willAbort, abortSent, 
+                            timersClosed, t1Count, wfail, sentPkts >>
+
+Reader(self) == r1(self) \/ r2(self) \/ r3(self) \/ r4(self) \/ r5(self)
 
 cl0(self) == /\ pc[self] = "cl0"
              /\ \/ /\ TRUE
@@ -624,82 +661,87 @@ cldone(self) == /\ pc[self] = "cldone"
 
 Closer(self) == cl0(self) \/ cl1(self) \/ cl2(self) \/ cldone(self)
 
-ab0 == /\ pc[8] = "ab0"
-       /\ \/ /\ TRUE
-             /\ pc' = [pc EXCEPT ![8] = "ab1"]
-          \/ /\ pc' = [pc EXCEPT ![8] = "abdone"]
-       /\ UNCHANGED << alock, slock, inbox, delivered, connClosed, 
-                       readDeadline, state, closeWriteLoopCh, readLoopCloseCh, 
-                       acceptChClosed, awake, connWaiting, hsResult, readErr, 
-                       readable, willAbort, abortSent, timersClosed, t1Count, 
-                       wfail, sentPkts >>
+ab0(self) == /\ pc[self] = "ab0"
+             /\ \/ /\ TRUE
+                   /\ pc' = [pc EXCEPT ![self] = "ab1"]
+                \/ /\ pc' = [pc EXCEPT ![self] = "abdone"]
+             /\ UNCHANGED << alock, slock, inbox, delivered, connClosed, 
+                             readDeadline, state, closeWriteLoopCh, 
+                             readLoopCloseCh, acceptChClosed, awake, 
+                             connWaiting, hsResult, readErr, readable, 
+                             willAbort, abortSent, timersClosed, t1Count, 
+                             wfail, sentPkts >>
 
-ab1 == /\ pc[8] = "ab1"
-       /\ alock = 0
-       /\ alock' = 8
-       /\ pc' = [pc EXCEPT ![8] = "ab2"]
-       /\ UNCHANGED << slock, inbox, delivered, connClosed, readDeadline, 
-                       state, closeWriteLoopCh, readLoopCloseCh, 
-                       acceptChClosed, awake, connWaiting, hsResult, readErr, 
-                       readable, willAbort, abortSent, timersClosed, t1Count, 
-                       wfail, sentPkts >>
+ab1(self) == /\ pc[self] = "ab1"
+             /\ alock = 0
+             /\ alock' = self
+             /\ pc' = [pc EXCEPT ![self] = "ab2"]
+             /\ UNCHANGED << slock, inbox, delivered, connClosed, readDeadline, 
+                             state, closeWriteLoopCh, readLoopCloseCh, 
+                             acceptChClosed, awake, connWaiting, hsResult, 
+                             readErr, readable, willAbort, abortSent, 
+                             timersClosed, t1Count, wfail, sentPkts >>
 
-ab2 == /\ pc[8] = "ab2"
-       /\ willAbort' = TRUE
-       /\ alock' = 0
-       /\ pc' = [pc EXCEPT ![8] = "ab3"]
-       /\ UNCHANGED << slock, inbox, delivered, connClosed, readDeadline, 
-                       state, closeWriteLoopCh, readLoopCloseCh, 
-                       acceptChClosed, awake, connWaiting, hsResult, readErr, 
-                       readable, abortSent, timersClosed, t1Count, wfail, 
-                       sentPkts >>
+ab2(self) == /\ pc[self] = "ab2"
+             /\ willAbort' = TRUE
+             /\ alock' = 0
+             /\ pc' = [pc EXCEPT ![self] = "ab3"]
+             /\ UNCHANGED << slock, inbox, delivered, connClosed, readDeadline, 
+                             state, closeWriteLoopCh, readLoopCloseCh, 
+                             acceptChClosed, awake, connWaiting, hsResult, 
+                             readErr, readable, abortSent, timersClosed, 
+                             t1Count, wfail, sentPkts >>
 
-ab3 == /\ pc[8] = "ab3"
-       /\ awake' = TRUE
-       /\ pc' = [pc EXCEPT ![8] = "ab4"]
-       /\ UNCHANGED << alock, slock, inbox, delivered, connClosed, 
-                       readDeadline, state, closeWriteLoopCh, readLoopCloseCh, 
-                       acceptChClosed, connWaiting, hsResult, readErr, 
-                       readable, willAbort, abortSent, timersClosed, t1Count, 
-                       wfail, sentPkts >>
+ab3(self) == /\ pc[self] = "ab3"
+             /\ awake' = TRUE
+             /\ pc' = [pc EXCEPT ![self] = "ab4"]
+             /\ UNCHANGED << alock, slock, inbox, delivered, connClosed, 
+                             readDeadline, state, closeWriteLoopCh, 
+                             readLoopCloseCh, acceptChClosed, connWaiting, 
+                             hsResult, readErr, readable, willAbort, abortSent, 
+                             timersClosed, t1Count, wfail, sentPkts >>
 
-ab4 == /\ pc[8] = "ab4"
-       /\ abortSent \/ TRUE
-       /\ pc' = [pc EXCEPT ![8] = "ab5"]
-       /\ UNCHANGED << alock, slock, inbox, delivered, connClosed, 
-                       readDeadline, state, closeWriteLoopCh, readLoopCloseCh, 
-                       acceptChClosed, awake, connWaiting, hsResult, readErr, 
-                       readable, willAbort, abortSent, timersClosed, t1Count, 
-                       wfail, sentPkts >>
+ab4(self) == /\ pc[self] = "ab4"
+             /\ abortSent \/ TRUE
+             /\ pc' = [pc EXCEPT ![self] = "ab5"]
+             /\ UNCHANGED << alock, slock, inbox, delivered, connClosed, 
+                             readDeadline, state, closeWriteLoopCh, 
+                             readLoopCloseCh, acceptChClosed, awake, 
+                             connWaiting, hsResult, readErr, readable, 
+                             willAbort, abortSent, timersClosed, t1Count, 
+                             wfail, sentPkts >>
 
-ab5 == /\ pc[8] = "ab5"
-       /\ readDeadline' = TRUE
-       /\ pc' = [pc EXCEPT ![8] = "ab6"]
-       /\ UNCHANGED << alock, slock, inbox, delivered, connClosed, state, 
-                       closeWriteLoopCh, readLoopCloseCh, acceptChClosed, 
-                       awake, connWaiting, hsResult, readErr, readable, 
-                       willAbort, abortSent, timersClosed, t1Count, wfail, 
-                       sentPkts >>
+ab5(self) == /\ pc[self] = "ab5"
+             /\ readDeadline' = TRUE
+             /\ pc' = [pc EXCEPT ![self] = "ab6"]
+             /\ UNCHANGED << alock, slock, inbox, delivered, connClosed, state, 
+                             closeWriteLoopCh, readLoopCloseCh, acceptChClosed, 
+                             awake, connWaiting, hsResult, readErr, readable, 
+                             willAbort, abortSent, timersClosed, t1Count, 
+                             wfail, sentPkts >>
 
-ab6 == /\ pc[8] = "ab6"
-       /\ readLoopCloseCh
-       /\ pc' = [pc EXCEPT ![8] = "abdone"]
-       /\ UNCHANGED << alock, slock, inbox, delivered, connClosed, 
-                       readDeadline, state, closeWriteLoopCh, readLoopCloseCh, 
-                       acceptChClosed, awake, connWaiting, hsResult, readErr, 
-                       readable, willAbort, abortSent, timersClosed, t1Count, 
-                       wfail, sentPkts >>
+ab6(self) == /\ pc[self] = "ab6"
+             /\ readLoopCloseCh
+             /\ pc' = [pc EXCEPT ![self] = "abdone"]
+             /\ UNCHANGED << alock, slock, inbox, delivered, connClosed, 
+                             readDeadline, state, closeWriteLoopCh, 
+                             readLoopCloseCh, acceptChClosed, awake, 
+                             connWaiting, hsResult, readErr, readable, 
+                             willAbort, abortSent, timersClosed, t1Count, 
+                             wfail, sentPkts >>
 
-abdone == /\ pc[8] = "abdone"
-          /\ TRUE
-          /\ pc' = [pc EXCEPT ![8] = "Done"]
-          /\ UNCHANGED << alock, slock, inbox, delivered, connClosed, 
-                          readDeadline, state, closeWriteLoopCh, 
-                          readLoopCloseCh, acceptChClosed, awake, connWaiting, 
-                          hsResult, readErr, readable, willAbort, abortSent, 
-                          timersClosed, t1Count, wfail, sentPkts >>
+abdone(self) == /\ pc[self] = "abdone"
+                /\ TRUE
+                /\ pc' = [pc EXCEPT ![self] = "Done"]
+                /\ UNCHANGED << alock, slock, inbox, delivered, connClosed, 
+                                readDeadline, state, closeWriteLoopCh, 
+                                readLoopCloseCh, acceptChClosed, awake, 
+                                connWaiting, hsResult, readErr, readable, 
+                                willAbort, abortSent, timersClosed, t1Count, 
+                                wfail, sentPkts >>
 
-Aborter == ab0 \/ ab1 \/ ab2 \/ ab3 \/ ab4 \/ ab5 \/ ab6 \/ abdone
+Aborter(self) == ab0(self) \/ ab1(self) \/ ab2(self) \/ ab3(self)
+                    \/ ab4(self) \/ ab5(self) \/ ab6(self) \/ abdone(self)
 
 e1 == /\ pc[9] = "e1"
       /\ IF sentPkts < MaxPkts /\ ~connClosed
@@ -722,8 +764,10 @@ Env == e1
 Terminating == /\ \A self \in ProcSet: pc[self] = "Done"
                /\ UNCHANGED vars
 
-Next == ReadLoop \/ WriteLoop \/ T1 \/ Connect \/ Reader \/ Aborter \/ Env
-           \/ (\E self \in {6, 7}: Closer(self))
+Next == ReadLoop \/ WriteLoop \/ T1 \/ Connect \/ Env
+           \/ (\E self \in Readers: Reader(self))
+           \/ (\E self \in Closers: Closer(self))
+           \/ (\E self \in Aborters: Aborter(self))
            \/ Terminating
 
 Spec == /\ Init /\ [][Next]_vars
@@ -731,9 +775,9 @@ Spec == /\ Init /\ [][Next]_vars
         /\ WF_vars(WriteLoop)
         /\ WF_vars(T1)
         /\ WF_vars(Connect)
-        /\ WF_vars(Reader)
-        /\ \A self \in {6, 7} : WF_vars(Closer(self))
-        /\ WF_vars(Aborter)
+        /\ \A self \in Readers : WF_vars(Reader(self))
+        /\ \A self \in Closers : WF_vars(Closer(self))
+        /\ \A self \in Aborters : WF_vars(Aborter(self))
 
 Termination == <>(\A self \in ProcSet: pc[self] = "Done")
 
@@ -746,7 +790,7 @@ LockOrder == ~(slock # 0 /\ alock = slock)
 \* callbacks / channel rendezvous with the lock held can always be released by closing the loops
 \* C09: once the transport is closed (by failure, Close or Abort) every goroutine of the association
 \* terminates and every blocked caller returns
-AllDone == /\ pc[1] = "Done" /\ pc[2] = "Done" /\ pc[3] = "Done" /\ pc[4] = "Done" /\ pc[5] = "Done"
-           /\ (\A c \in {6, 7} : pc[c] = "Done") /\ pc[8] = "Done"
+AllDone == /\ pc[1] = "Done" /\ pc[2] = "Done" /\ pc[3] = "Done" /\ pc[4] = "Done"
+           /\ (\A c \in Closers \cup Aborters \cup Readers : pc[c] = "Done")
 TerminatesWhenClosed == connClosed ~> AllDone
 =============================================================================
